@@ -4,6 +4,8 @@ import (
 	"encoding/hex"
 	"fmt"
 
+	"github.com/MixinNetwork/mixin/common"
+
 	"github.com/MixinNetwork/mixin/crypto"
 	"verifharness/vh"
 )
@@ -60,7 +62,15 @@ func pick(r *vh.Rand, ws []int) int {
 	return len(ws) - 1
 }
 
-func GenWorld(r *vh.Rand, h *History) {
+// indexes congruent mod 128, 256, 2^16-ish boundaries, up to common.InputIndexLimit and one above
+func InterestingIndexes() []uint {
+	lim := uint(common.InputIndexLimit)
+	return []uint{0, 1, 2, 127, 128, 129, 255, 256, 257, 383, 384, 511, 512, 513, 767, 768, 1023, lim, lim + 1}
+}
+
+func isWide(h *History) bool { return len(h.Txs) > 0 && len(h.Txs[0].Outs) > 200 }
+
+func GenWorld(r *vh.Rand, h *History, wide bool) {
 	h.NKeys = 10
 	nextKey := 0
 	fresh := func() int {
@@ -75,6 +85,12 @@ func GenWorld(r *vh.Rand, h *History) {
 		no := r.Range(2, 3)
 		for o := 0; o < no; o++ {
 			t.Outs = append(t.Outs, []int{fresh()})
+		}
+		if wide && g == 0 {
+			// the largest transaction the encoding allows: output slots 0..255 of one hash
+			for len(t.Outs) < common.SliceCountLimit {
+				t.Outs = append(t.Outs, []int{})
+			}
 		}
 		h.Txs = append(h.Txs, t)
 	}
@@ -108,6 +124,13 @@ func GenWorld(r *vh.Rand, h *History) {
 			idx := r.Intn(len(h.Txs[src].Outs) + 1)
 			if r.Chance(4, 5) && len(h.Txs[src].Outs) > 0 {
 				idx = r.Intn(len(h.Txs[src].Outs))
+			}
+			if wide && src == 0 {
+				ii := InterestingIndexes()
+				idx = int(ii[r.Intn(len(ii)-1)]) // up to the limit (the encoder refuses more)
+				if r.Chance(1, 4) {
+					idx = r.Intn(common.InputIndexLimit + 1)
+				}
 			}
 			t.Ins = append(t.Ins, SlotRef{Tx: src, Index: uint(idx)})
 		}
@@ -200,6 +223,11 @@ func (w *World) genOp(r *vh.Rand, d *Dump, ws Weights, batch bool) OpSpec {
 			if r.Chance(3, 4) {
 				src = r.Intn(2)
 			}
+			if isWide(h) && r.Chance(3, 4) {
+				src = 0
+				ii := InterestingIndexes()
+				idx = ii[r.Intn(len(ii))]
+			}
 			op.Slots = append(op.Slots, SlotRef{Tx: src, Index: idx})
 		}
 		if r.Chance(1, 15) {
@@ -228,8 +256,12 @@ func (w *World) genOp(r *vh.Rand, d *Dump, ws Weights, batch bool) OpSpec {
 // GenHistory draws a world and nops calls (plus a concurrent batch when
 // nconc > 0).
 func GenHistory(r *vh.Rand, kind string, ws Weights, nops, nconc int) *History {
+	return GenHistoryW(r, kind, ws, nops, nconc, false)
+}
+
+func GenHistoryW(r *vh.Rand, kind string, ws Weights, nops, nconc int, wide bool) *History {
 	h := &History{Kind: kind}
-	GenWorld(r, h)
+	GenWorld(r, h, wide)
 	// a store-less world only to know the hashes; the simulated state biases the draw
 	w, err := BuildWorld(h)
 	if err != nil {
@@ -253,4 +285,88 @@ func GenHistory(r *vh.Rand, kind string, ws Weights, nops, nconc int) *History {
 		h.Conc = append(h.Conc, w.genOp(r, d, ws, true))
 	}
 	return h
+}
+
+// GenReuse: a holder A of an output key in one of three states (only reserved,
+// admitted and persisted, finalized) and a different transaction B that reuses
+// the key through every path (admission with and without fork, raw key lock,
+// finalization), with random calls in between.
+func GenReuse(r *vh.Rand, kind string, ws Weights, noise int) *History {
+	h := &History{Kind: kind}
+	GenWorld(r, h, false)
+	// A and B: two spends (indexes 2 and 3) made to share a key
+	a, b := 2, 3
+	// keys 7..9 are never used by the genesis transactions
+	h.Txs[a].Outs = [][]int{{7}, {8}}
+	shared := 7 + r.Intn(2)
+	h.Txs[b].Outs = dedup([][]int{{9}, {shared}})
+	if r.Bool() {
+		h.Txs[b].Outs = dedup([][]int{{shared, 9}})
+	}
+	// distinct inputs so that both can be locked and persisted
+	h.Txs[a].Ins = []SlotRef{{Tx: 0, Index: 0}}
+	h.Txs[b].Ins = []SlotRef{{Tx: 0, Index: 1}}
+	w, err := BuildWorld(h)
+	if err != nil {
+		panic(err)
+	}
+	d := EmptyDump()
+	push := func(op OpSpec) {
+		h.Ops = append(h.Ops, op)
+		_, d = w.Sim(d, &op)
+	}
+	some := func(n int) {
+		for i := 0; i < n; i++ {
+			push(w.genOp(r, d, ws, false))
+		}
+	}
+	push(OpSpec{Op: "writetx", Tx: 0})
+	push(OpSpec{Op: "finalize", Txs: []int{0}})
+	state := r.Intn(3)
+	if r.Bool() {
+		push(OpSpec{Op: "validate", Tx: a})
+	} else {
+		push(OpSpec{Op: "lockghost", Tx: a, Keys: flatten(h.Txs[a].Outs)})
+	}
+	if state >= 1 {
+		push(OpSpec{Op: "lockinputs", Tx: a})
+		push(OpSpec{Op: "writetx", Tx: a})
+	}
+	if state == 2 {
+		push(OpSpec{Op: "finalize", Txs: []int{a}})
+	}
+	some(r.Intn(noise + 1))
+	for k := r.Range(2, 5); k > 0; k-- {
+		switch r.Intn(4) {
+		case 0:
+			push(OpSpec{Op: "validate", Tx: b, Fork: r.Chance(3, 4)})
+		case 1:
+			push(OpSpec{Op: "lockghost", Tx: b, Keys: flatten(h.Txs[b].Outs), Fork: r.Chance(3, 4)})
+		case 2:
+			push(OpSpec{Op: "lockghost", Keys: []int{shared}, As: fmt.Sprintf("tx:%d", b), Fork: true})
+		case 3:
+			push(OpSpec{Op: "lockinputs", Tx: b, Fork: r.Bool()})
+			push(OpSpec{Op: "writetx", Tx: b})
+			push(OpSpec{Op: "finalize", Txs: []int{b}})
+		}
+		some(r.Intn(2))
+	}
+	return h
+}
+
+// dedup removes in-transaction key repeats (they are the subject of other cases)
+func dedup(outs [][]int) [][]int {
+	seen := map[int]bool{}
+	var res [][]int
+	for _, o := range outs {
+		var ks []int
+		for _, k := range o {
+			if !seen[k] {
+				seen[k] = true
+				ks = append(ks, k)
+			}
+		}
+		res = append(res, ks)
+	}
+	return res
 }
